@@ -141,6 +141,7 @@ def py_tables() -> list[str]:
 
     out = []
     ents = []
+    dents = []
     if sorted(OPCODES) != list(range(256)):
         out.append("(* NOTE: python opcode table does not define all 256 opcodes *)")
     for opc in sorted(OPCODES):
@@ -155,11 +156,15 @@ def py_tables() -> list[str]:
         if opts.cond is not None and opts.cond not in CONDS:
             fail(f"cond without a mapping: {opts.cond}")
         ops = [py_shape(o) for o in (opts.ops or [])]
+        dents.append(
+            "{| d_opc := %s; d_cls := %s; d_optname := %s; d_cond := %s; d_rev := %s; d_ops := %s |}"
+            % (cN(opc), icls, copt(opts.name, lambda n: OPTNAMES[n]), copt(opts.cond, lambda c: CONDS[c]), cbool(bool(opts.ops_reversed)), clist(ops)))
         ents.append(
             "{| p_opc := %s; p_cls := %s; p_optname := %s; p_cond := %s; p_rev := %s; p_ops := %s; p_clsname := %s; p_optname_s := %s |}"
             % (cN(opc), icls, copt(opts.name, lambda n: OPTNAMES[n]), copt(opts.cond, lambda c: CONDS[c]), cbool(bool(opts.ops_reversed)),
                clist(ops), cstr(cname), copt(opts.name, cstr)))
     out.append("Definition py_opcodes : list pentry :=\n  " + clist(["\n   " + e for e in ents]) + ".")
+    out.append("Definition py_dec_table : list dentry :=\n  " + clist(["\n   " + e for e in dents]) + ".")
 
     # PRE tables
     pre = []
@@ -247,6 +252,8 @@ def allowed_violation_is_assert() -> bool:
                     if isinstance(body0, ast.Assert):
                         kinds.append("assert")
                     elif isinstance(body0, ast.If) and isinstance(body0.body[0], ast.Raise) and "InvalidInstruction" in ast.unparse(body0.body[0]):
+                        kinds.append("invalid")
+                    elif isinstance(body0, ast.Raise) and "InvalidInstruction" in ast.unparse(body0) and "not in" in ast.unparse(node.test):
                         kinds.append("invalid")
                     else:
                         fail(f"{cls.name}.decode: allowed_modes check not understood: {ast.unparse(body0)[:80]}")
